@@ -11,7 +11,10 @@ each hostile frame the same connection (if it was kept open) and a second, well-
 a REQ answered, a fresh valid EVENT accepted and that event pushed to a watcher; no exception may escape the
 handler; closing is clean; afterwards the registry is empty and no task of the connection is left.  A subscriber that stops
 reading its socket: while stored answers are owed to it (stalled_reader), and while thousands of live pushes are owed to it
-(stalled_live_flood: events x live subscriptions); the others are served throughout and after it has gone.
+(stalled_live_flood: events x live subscriptions); the others are served throughout and after it has gone.  Connections whose
+state changes in mid-life (midlife_sessions): with NIP-42 on, AUTH (valid, invalid, repeated, as another identity) arrives at
+random points of sessions of REQ / CLOSE / EVENT / disconnect on several connections; after every step the registry holds exactly
+what the clients opened and did not close, pushes go to exactly the open matching subscriptions, nothing goes to an ended connection.
 """
 import asyncio
 import copy
@@ -778,6 +781,301 @@ def limited_connections(report, backend, rng, tag):
             relay.close()
 
 
+# ------------------------------------------------------------------------------------------------------------
+# Connections whose state changes in mid-life while they hold resources.
+AUTH_VARIANTS = ("wrong-challenge", "challenge-of-another-connection", "wrong-relay", "wrong-kind", "stale", "no-tags", "bad-signature")
+# NIP-42 on; anonymous clients may query and save in every configuration (so that a connection can hold subscriptions *before* it
+# authenticates), and so may every identity used below: what a client may do is C14's subject, here only what the relay keeps for it
+MIDLIFE_CONFIGS = [
+    {"enabled": True, "relay_urls": [URL], "actions": {}},
+    {"enabled": True, "relay_urls": [URL], "actions": {"query": "a", "save": "a"}},
+    {"enabled": True, "relay_urls": [URL], "actions": {"query": "ar", "save": "aw"}, "throttle": {"unauthenticated": 0.4, "a": 0.1, "w": 0.2}},
+]
+MIDLIFE_ROLES = [(None, None, None), (None, "ar", "aw"), ("arw", "a", None)]
+
+
+def auth_answer(relay, sk, challenge, variant="valid", other_challenge=None):
+    """a NIP-42 answer to this connection's challenge: fully valid, or wrong in exactly one respect"""
+    import time
+
+    now = int(time.time())
+    kw = dict(kind=22242, tags=[["relay", URL], ["challenge", challenge]], created_at=now)
+    if variant == "wrong-challenge":
+        kw["tags"] = [["relay", URL], ["challenge", "00" * 16]]
+    elif variant == "challenge-of-another-connection":
+        kw["tags"] = [["relay", URL], ["challenge", other_challenge or "ff" * 16]]
+    elif variant == "wrong-relay":
+        kw["tags"] = [["relay", "ws://elsewhere.example"], ["challenge", challenge]]
+    elif variant == "wrong-kind":
+        kw["kind"] = 22243
+    elif variant == "stale":
+        kw["created_at"] = now - 3600
+    elif variant == "no-tags":
+        kw["tags"] = []
+    ev = relay.signed_event(sk, **kw)
+    if variant == "bad-signature":
+        ev["sig"] = ev["sig"][:-2] + ("01" if ev["sig"].endswith("00") else "00")
+    return ev
+
+
+def _simple_match(f, ev):
+    """the filters of midlife_sessions are conjunctions of kinds / authors / one tag: NIP-01 for that fragment"""
+    if "kinds" in f and ev["kind"] not in f["kinds"]:
+        return False
+    if "authors" in f and ev["pubkey"] not in f["authors"]:
+        return False
+    if "#t" in f and not any(len(t) > 1 and t[0] == "t" and t[1] in f["#t"] for t in ev["tags"]):
+        return False
+    return True
+
+
+class _Client:
+    """what the harness knows of one connection from the messages it sent itself: the subscriptions it has opened and not
+    closed (id -> filter).  Nothing here is read off the relay."""
+
+    def __init__(self, conn, name):
+        self.c, self.name, self.subs, self.dead, self.authed, self.before_auth = conn, name, {}, None, 0, set()
+
+    def residue(self):
+        q = self.c._queue
+        return (len(self.c.out), q.qsize() if q is not None else 0)
+
+
+def midlife_sessions(report, backend, rng, tag, n_steps):
+    """Sessions of two to four connections on a relay with NIP-42 enabled, in which AUTH — fully valid, invalid in one respect,
+    repeated, as another identity, with another connection's challenge — arrives at random points of the session grammar
+    (connect, REQ with a new / re-used id, REQ without a usable filter, CLOSE of an open / unknown id, EVENT, disconnect) instead
+    of only at the start: a connection's identity, roles and throttle change while it holds subscriptions, a sender task and
+    queued messages; sometimes the AUTH and the next command are buffered together.  The oracle does not know what
+    authentication does inside the relay; it states what holds whatever the identity of a connection is:
+      * after every step the registry (storage.clients) holds exactly the subscriptions the clients opened and did not close:
+        CLOSE ends that id, a disconnect ends all of the connection's, nothing else ends any;
+      * every REQ gets its EOSE, every EVENT its OK true; a fresh event is pushed once to exactly the open subscriptions it
+        matches, on every connection — none for a closed id, none missing;
+      * nothing is sent to or queued for a connection that has ended, whoever publishes afterwards;
+      * no exception escapes a handler, a handler that ends has closed its websocket or was disconnected, and at the end no task
+        is left."""
+    cfg = copy.deepcopy(MIDLIFE_CONFIGS[rng.randrange(len(MIDLIFE_CONFIGS))])
+    roles = MIDLIFE_ROLES[rng.randrange(len(MIDLIFE_ROLES))]
+    relay = Relay(backend, authentication=cfg)
+    log = []
+    payload = {"backend": backend, "case": "midlife-session", "authentication": cfg, "roles_of_the_three_keys": roles, "tag": tag, "steps": log}
+    failed = []
+
+    def fail(what, **more):
+        failed.append(what)
+        report.property_failure("%s: %s (NIP-42 on; step %d: %r)" % (backend, what, len(log), log[-1] if log else None),
+                                dict(copy.deepcopy(payload), **more), None)
+
+    try:
+        for i, r in enumerate(roles):
+            if r is not None:
+                relay.set_roles(KEYS[i].public_key.hex(), r)
+        clients = []
+        fresh = {"n": 0}
+        authors = [k.public_key.hex() for k in KEYS]
+
+        def live():
+            return [s for s in clients if s.dead is None]
+
+        def connect():
+            s = _Client(Conn(relay, remote_addr="9.9.%d.%d" % (len(clients) // 200, len(clients) % 200 + 1)), "c%d" % len(clients))
+            clients.append(s)
+            return s
+
+        def new_filter():
+            f = {}
+            r = rng.random()
+            if r < 0.7:
+                f["kinds"] = rng.choice([[1], [7], [1, 7], [EPHEMERAL], [1, EPHEMERAL], [1, 7, EPHEMERAL]])
+            if r > 0.5:
+                f["authors"] = rng.sample(authors, rng.choice([1, 1, 2]))
+            if rng.random() < 0.15:
+                f["#t"] = [rng.choice(["x", "y"])]
+            if rng.random() < 0.3:
+                f["limit"] = rng.choice([1, 3, 50])
+            return f
+
+        def world(why):
+            """the clauses that hold after every step"""
+            for s in clients:
+                if s.c.exc is not None:
+                    fail("%s escaped the handler of connection %s: %r" % (type(s.c.exc).__name__, s.name, s.c.exc))
+                    s.c.exc = None
+                if s.dead is None and s.c.done:
+                    # the relay ended the connection itself: its business (counted), but then it must have closed the socket
+                    if s.c.closed_with is None:
+                        fail("the handler of connection %s ended although the client neither disconnected nor was the websocket closed" % s.name)
+                    report.count("midlife_connections_ended_by_the_relay")
+                    s.subs.clear()
+                    s.dead = s.residue()
+            registry = sorted(v for v in relay.open_subscriptions().values() if v)
+            expected = sorted(sorted(s.subs) for s in live() if s.subs)
+            if registry != expected:
+                fail("%s the registry holds the subscriptions %r, the clients have opened and not closed %r"
+                     % (why, registry, expected), registry=relay.open_subscriptions(),
+                     open_by_connection={s.name: sorted(s.subs) for s in live()}, ended=[s.name for s in clients if s.dead is not None])
+            for s in clients:
+                if s.dead is not None and s.residue() != s.dead:
+                    fail("%s connection %s, which has ended, was sent or had queued for it %d frame(s) / %d message(s) more"
+                         % (why, s.name, s.residue()[0] - s.dead[0], s.residue()[1] - s.dead[1]))
+                    s.dead = s.residue()
+
+        def publish(s, why):
+            kind = rng.choice([1, 1, 7, EPHEMERAL])
+            ev = relay.signed_event(KEYS[rng.randrange(3)], kind=kind, content="midlife %s %s %d" % (backend, tag, len(log)),
+                                    tags=[["t", rng.choice(["x", "y", "z"])]] if rng.random() < 0.4 else [])
+            log.append(["EVENT", s.name, {"kind": kind, "pubkey": ev["pubkey"], "tags": ev["tags"]}])
+            marks = {t.name: len(t.c.out) for t in live()}
+            ok = s.c.send_event(ev)
+            if ok is not True:
+                fail("%s a fresh valid EVENT of connection %s was %s" % (why, s.name, "not answered" if ok is None else "refused"), event=ev)
+                return
+            for t in clients:
+                if t.name not in marks:
+                    continue
+                got = Counter(f[1] for f in t.c.frames(marks[t.name]) if isinstance(f, list) and len(f) > 2 and f[0] == "EVENT"
+                              and isinstance(f[2], dict) and f[2].get("id") == ev["id"])
+                want = sorted(sid for sid, f in t.subs.items() if _simple_match(f, ev))
+                if sorted(got) != want or any(n != 1 for n in got.values()):
+                    closed = sorted(set(got) - set(t.subs))
+                    fail("%s an event published by %s was pushed to connection %s for the subscriptions %r; its open subscriptions that "
+                         "match are %r%s" % (why, s.name, t.name, dict(got), want,
+                                             (" — %r are closed" % closed) if closed else ""),
+                         event=ev, open_subscriptions={k: v for k, v in t.subs.items()})
+
+        for _ in range(rng.choice([2, 2, 3])):
+            connect()
+            log.append(["connect", clients[-1].name])
+        pipelined = None          # the connection whose AUTH is still in its buffer: the next step is its own
+        while len(log) < n_steps and not failed:
+            lv = live()
+            if not lv:
+                connect()
+                log.append(["connect", clients[-1].name])
+                continue
+            s = pipelined or rng.choice(lv)
+            after_buffered, pipelined = pipelined is not None, None
+            holds = bool(s.subs)
+            r = rng.random()
+            if r < 0.06 and len(lv) < 4:
+                connect()
+                log.append(["connect", clients[-1].name])
+            elif r < 0.30:
+                reuse = s.subs and rng.random() < 0.25
+                sid = rng.choice(sorted(s.subs)) if reuse else "s%d" % fresh["n"]
+                fresh["n"] += 1
+                if len(s.subs) >= 8 and not reuse:
+                    continue
+                f = new_filter()
+                log.append(["REQ", s.name, sid, f])
+                n0 = len(s.c.out)
+                s.c.send(["REQ", sid, f])
+                s.subs[sid] = f
+                s.before_auth.discard(sid)
+                if not any(isinstance(x, list) and len(x) > 1 and x[0] == "EOSE" and x[1] == sid for x in s.c.frames(n0)):
+                    fail("a REQ of connection %s (%s) got no EOSE" % (s.name, "authenticated %d time(s)" % s.authed if s.authed else "not authenticated"),
+                         frames=[t[:200] for t in s.c.out[n0:n0 + 10]])
+            elif r < 0.34:
+                sid = "none%d" % fresh["n"]
+                fresh["n"] += 1
+                f = rng.choice([{"kinds": "x"}, {"ids": [5]}, {"authors": "me"}])
+                log.append(["REQ", s.name, sid, f])
+                n0 = len(s.c.out)
+                s.c.send(["REQ", sid, f])
+                if not s.c.done and len(s.c.out) == n0:
+                    fail("a REQ without a usable filter on connection %s was met with silence" % s.name)
+            elif r < 0.52:
+                # CLOSE: mostly of an open subscription (the oldest first as often as any), sometimes of an id never / no longer open
+                if s.subs and rng.random() < 0.85:
+                    sid = sorted(s.subs, key=lambda k: int(k[1:]))[0] if rng.random() < 0.5 else rng.choice(sorted(s.subs))
+                else:
+                    sid = rng.choice(["s%d" % rng.randrange(max(1, fresh["n"])), "never"])
+                log.append(["CLOSE", s.name, sid])
+                s.c.send(["CLOSE", sid])
+                if sid in s.subs:
+                    report.count("midlife_close_of_a_subscription_opened_before_a_valid_auth" if sid in s.before_auth
+                                 else "midlife_close_of_an_open_subscription")
+                s.subs.pop(sid, None)
+            elif r < 0.70:
+                publish(s, "")
+            elif r < 0.93:
+                valid = rng.random() < (0.75 if holds else 0.5)
+                variant = "valid" if valid else rng.choice(AUTH_VARIANTS)
+                key = rng.randrange(3)
+                others = [t.c.challenge() for t in lv if t is not s]
+                ev = auth_answer(relay, KEYS[key], s.c.challenge(), variant, rng.choice(others) if others else None)
+                buffered = rng.random() < 0.3
+                log.append(["AUTH", s.name, variant, "key%d" % key, "buffered with the next command" if buffered else "alone"])
+                n0 = len(s.c.out)
+                s.c.send(["AUTH", ev], settle=not buffered)
+                report.count("midlife_auth_" + variant)
+                if valid:
+                    s.authed += 1
+                    s.before_auth = set(s.subs)
+                    if holds:
+                        report.count("midlife_valid_auth_of_a_connection_holding_subscriptions")
+                    if s.authed > 1:
+                        report.count("midlife_valid_auth_repeated_or_as_another_identity")
+                if buffered:
+                    pipelined = s
+                    continue
+                if after_buffered:
+                    world("after the step")      # (a NOTICE now could be the answer to either of the two AUTHs)
+                    continue
+                notices = [x for x in s.c.frames(n0) if isinstance(x, list) and x and x[0] == "NOTICE"]
+                report.count("midlife_auth_%s_%s" % ("valid" if valid else "invalid", "refused" if notices else "silent"))
+            else:
+                log.append(["disconnect", s.name])
+                s.c.close()
+                s.subs.clear()
+                s.dead = s.residue()
+                if not s.c.done:
+                    fail("the handler of connection %s did not end on its disconnect" % s.name)
+            world("after the step")
+        # ---- endings: the connections leave one by one, somebody publishes in between ----------------------
+        order = live()
+        rng.shuffle(order)
+        for s in order:
+            if failed:
+                break
+            log.append(["disconnect", s.name])
+            s.c.close()
+            s.subs.clear()
+            s.dead = s.residue()
+            if not s.c.done:
+                fail("the handler of connection %s did not end on its disconnect" % s.name)
+            world("after the disconnect")
+            rest = live()
+            if rest and not failed:
+                publish(rng.choice(rest), "after %s had gone," % s.name)
+                world("after %s had gone and another connection published," % s.name)
+        if not failed:
+            late = connect()
+            log.append(["connect", late.name])
+            publish(late, "after all earlier connections had gone,")
+            world("after all earlier connections had gone and a newcomer published,")
+            log.append(["disconnect", late.name])
+            late.c.close()
+            late.dead = late.residue()
+            world("at the end")
+            relay.settle()
+            left = [t for t in asyncio.all_tasks(relay.loop) if not t.done()]
+            names = sorted(getattr(t.get_coro(), "__qualname__", str(t)) for t in left)
+            leaked = [n for n in names if any(k in n for k in ("start_client", "send_subscriptions", "run_query", "notify", "_main"))]
+            if leaked:
+                fail("%d task(s) of ended connections are still pending: %r" % (len(leaked), sorted(set(leaked))))
+        report.case(("midlife", backend, tag, json.dumps(log, sort_keys=True)[:4000]), nontrivial=True,
+                    sample={"case": "midlife-session", "backend": backend, "steps": len(log), "connections": len(clients),
+                            "valid_auths": sum(s.authed for s in clients), "first_steps": log[:6]})
+        report.count("midlife_sessions")
+        report.count("midlife_steps", len(log))
+        for st in log:
+            report.count("midlife_step_" + st[0])
+    finally:
+        relay.close()
+
+
 KEYS = []
 # (events, live subscriptions of the silent client) per backend: the two axes along which the undelivered messages grow.  An event
 # costs a few ms on LMDB (ephemeral: no write) and tens of ms on SQLite (every insert is several round trips to the aiosqlite
@@ -785,6 +1083,10 @@ KEYS = []
 # SQL; the code between the socket and the storage is the same for both.  2500 resp. 7500 undelivered messages in the quick tier.
 LIVE_FLOODS = {"quick": {"kv": [(2500, 1)], "sql": [(250, 30)]},
                "thorough": {"kv": [(20000, 1), (3000, 8), (400, 30)], "sql": [(1500, 1), (300, 30), (600, 4)]}}
+
+
+# (sessions, steps per session) of midlife_sessions: a step is one settled message, ~10 ms on LMDB and ~25 ms on SQLite
+MIDLIFE = {"quick": {"sql": (10, 40), "kv": (12, 40)}, "thorough": {"sql": (80, 80), "kv": (120, 80)}}
 
 
 def run(report, tier, seed):
@@ -806,7 +1108,12 @@ def run(report, tier, seed):
         "REQs in between, then the silent client disconnects (handler ends, others served, no task left); clients whose last command(s) and disconnect are buffered together, so that the "
         "connection ends before its sender or query task has run a step; a relay with per-address limits for three commands under a "
         "simulated clock, connections of three addresses coming and going with pauses of 0 s to 100 s (every disconnect runs the "
-        "limiter's cleanup); non-trivial = the frame got an answer")
+        "limiter's cleanup); sessions of 2-4 connections on a relay with NIP-42 on (three configurations of actions / throttle, three "
+        "role assignments, anonymous may query and save) in which AUTH - fully valid, wrong in one of seven respects, repeated, as "
+        "another identity, buffered together with the next command - arrives at random points between REQ (new / re-used id, no usable "
+        "filter), CLOSE (open / unknown id), EVENT and disconnect: after every step the registry holds exactly the subscriptions "
+        "opened and not closed, every fresh event is pushed once to exactly the open matching subscriptions of every connection, "
+        "nothing is sent to or queued for an ended connection, at the end no task is left; non-trivial = the frame got an answer")
     report.assumptions += ["quiescence after every frame", "the websocket layer (falcon/uvicorn) is replaced by in-memory callables; "
                            "frame size limits of the real server are not in scope"]
     try:
@@ -824,6 +1131,11 @@ def run(report, tier, seed):
         for backend in ("sql", "kv"):
             for auth in ((False,) if tier == "quick" and backend == "kv" else (False, True)):
                 robustness(report, drv, backend, auth, rng, tier)
+        # (last: the random choices of the scenarios above stay what they were for a given seed)
+        for backend in ("sql", "kv"):
+            n_sessions, n_steps = MIDLIFE[tier if tier == "quick" else "thorough"][backend]
+            for i in range(n_sessions):
+                midlife_sessions(report, backend, rng, i, n_steps)
     finally:
         drv.close()
 
